@@ -43,7 +43,7 @@ CHECK = dict(
           "simple + counter-clockwise by the exact integer test and the survivors (counter `rings`) are run; non-trivial = (ring, tolerance) pairs in "
           "which vertices were deleted and the ring survived."),
     bounds=dict(quick=("offset 432 cases x 9 deltas at 320x320 samples; 44679 point sequences; 266256 triangle pairs x 2 hull APIs; 333375 shape multisets in "
-                       "[0,4]^2; 509545 frame + pair scenes in [0,9]^2; 65536 pixel regions; 17.9M vertex sequences -> 272888 rings x 4 tolerances; seq-asan re-runs offset at "
+                       "[0,4]^2; 509545 frame + pair scenes in [0,9]^2; 65536 pixel regions; 17.9M vertex sequences -> 272888 rings x 6 tolerances (0 .. 2.5); seq-asan re-runs offset at "
                        "160x160 samples, hull-pts, 1/8 of hull-pairs, shapes in [0,3]^2, frame scenes in [0,7]^2, the 4x3 pixel grid, rings of <= 5 vertices"),
                 thorough=("offset at 640x640 samples; point subsets of <= 8 points (117609 sequences); shapes in [0,5]^2 (15.3M multisets); frame + pairs in "
                           "[0,11]^2 (3.9M scenes); the 4x5 pixel grid (1M regions); the rest as quick")),
